@@ -39,6 +39,17 @@ class C11(TieCheck):
     ]
 
     def run(self, tier, seed, replay=None):
+        if replay:
+            # a replay file written by this check names the tier and seed that generated the failing
+            # cases; the generators are deterministic, so re-running with them reproduces the input
+            try:
+                import json
+                rp = json.load(open(replay))
+                tier, seed = rp.get("tier", tier), int(rp.get("seed", seed))
+            except Exception:
+                pass
+        # case files of ~600 cases keep each coqc under ~0.5 GB (a 5000-case file needs 2.4 GB)
+        self.shards = lib.NCPU if tier == "quick" else 8 * lib.NCPU
         lib.known_findings = _known
         try:
             return super().run(tier, seed, replay)
